@@ -105,6 +105,11 @@ def run_shard(spec_, res):
             res.sample({"index": i, "modules": [None if m is None else m["type"] for m in c.snap["modules"]],
                         "patterns": [None if q is None else q["kind"] for q in c.snap["patterns"]],
                         "api_history_head": [list(map(str, h)) for h in c.history[:6]]})
+    # several threads, each loading / saving / attaching on its own objects, switching at I/O calls (rvmon.sched)
+    if spec_["shard"] % 2 == 0:
+        import random as _random
+        from .. import threadtasks
+        threadtasks.run_loads(res, PROPERTY, _random.Random(spec_["seed"] * 31 + spec_["shard"]), spec_["seed"], tier, 8 if tier == "quick" else 60)
     # the same files once more, loaded by an interpreter that has done nothing else
     workload.fresh_process_reload(res, PROPERTY, FRESH)
     del FRESH[:]
